@@ -27,7 +27,11 @@ type Shadow struct {
 	tracked bool
 	inCall  bool
 	Late    []string // primitives invoked while no API call was running (a finalizer acting on the secret's pages)
-	Tail    int      // > 0: only the last Tail bytes of a region are secret data (memguard pads the inner region with a random canary)
+	// FailNone > 0: the FailNone-th Protect(NoAccess) from now on fails (schedules of readers and closers: the release of a reader)
+	FailNone int
+	nNone    int
+	freed    bool // the pages went back to the kernel through Free
+	Tail     int  // > 0: only the last Tail bytes of a region are secret data (memguard pads the inner region with a random canary)
 }
 
 var errInjected = errors.New("injected primitive failure")
@@ -110,6 +114,11 @@ func (s *Shadow) Protect(b []byte, f memcall.MemoryProtectionFlag) error {
 	case memcall.ReadWrite():
 		name, p = "Protect(RW)", "RW"
 	}
+	if p == "NONE" && s.FailNone > 0 {
+		if s.nNone++; s.nNone == s.FailNone {
+			return errInjected
+		}
+	}
 	if s.step(name) {
 		return errInjected
 	}
@@ -177,6 +186,7 @@ func (s *Shadow) Free(b []byte) error {
 	err := memcall.Free(b)
 	if err == nil {
 		s.prot = ""
+		s.freed = true
 	}
 	return err
 }
@@ -238,6 +248,12 @@ func (s *Shadow) Kernel() PageView {
 			break
 		}
 	}
+	if v.Mapped && !v.DontDump && (s.freed || s.Tail > 0) {
+		// an address handed back to the kernel is given out again at once - the runtime puts thread stacks and heap where it finds
+		// room. Once the pages went back through Free (protectedmemory) or belong to memguard (which marks them at allocation and
+		// releases them inside the library), a mapping without the MADV_DONTDUMP mark is not the secret's.
+		v = PageView{}
+	}
 	if !v.Mapped {
 		v.Prot = "NONE"
 	}
@@ -256,7 +272,7 @@ func (s *Shadow) BeginCallKeep() {
 }
 
 // Untrack forgets the address followed so far.
-func (s *Shadow) Untrack() { s.tracked = false; s.prot = "" }
+func (s *Shadow) Untrack() { s.tracked = false; s.prot = ""; s.freed = false }
 
 func unsafeSlice(addr uintptr, n int) []byte {
 	return unsafe.Slice((*byte)(unsafe.Pointer(addr)), n)
